@@ -20,6 +20,7 @@ VARIABLES c, h              \\* h = the history the interpreter assigns to case 
 PInit == c \\in Cases /\\ h = Expected(c)
 PNext == UNCHANGED <<c, h>>
 Emit == PrintT("@@J@@" \\o ToJson([case |-> c, exp |-> h]))
+ASSUME PrintT("@@J@@" \\o ToJson([configspace |-> ConfigSpace]))
 {invs}
 ====
 """
@@ -51,7 +52,10 @@ def enumerate_cases(ctx: Ctx, wd, module: str, *, constants: dict, invariants=()
     ctx.add_tlc(f"{module}:enumerate[{name}]", r)
     require_ok(r, f"{module} case enumeration / interpreter sanity invariants {list(invariants)} ({name})")
     cases = [j for j in r.json_lines if isinstance(j, dict) and "case" in j]
-    return cases
+    space = [j["configspace"] for j in r.json_lines if isinstance(j, dict) and "configspace" in j]
+    if not space:
+        raise MachineryError(f"{module}: the configuration space was not emitted")
+    return cases, space[0]
 
 
 def judge(ctx: Ctx, wd, module: str, records: list[dict], *, timeout: int = 1200,
